@@ -306,6 +306,8 @@ func (i StartSubroutine) String() string {
 }
 
 func (i StartSubroutine) adjust(offset int, state *GenState) SearchInstruction {
+	// the id is the pc of this instruction and is what calls to it are validated against
+	i.Id += offset
 	i.EndOffset += offset
 	return i
 }
